@@ -113,6 +113,8 @@ def generate(rng, opts):
             "submodules": rng.random() < 0.85,
             "find_stubs_package": rng.random() < 0.2,
             "store_source": rng.random() < 0.7,
+            # a long-lived loader whose public option attributes are switched after construction
+            "late_options": rng.random() < 0.25,
         }
         ops.append(op)
     # a long-lived process does not clean sys.modules between two loads
@@ -234,7 +236,14 @@ def _do_op(griffe, op, sp, target):
     if op["api"] == "load":
         return griffe.load(target, search_paths=[sp], submodules=op["submodules"], store_source=op["store_source"], try_relative_path=isinstance(target, str) and os.sep in target, **kw, **res)
     if op["api"] == "loader":
-        loader = griffe.GriffeLoader(search_paths=[sp], allow_inspection=op["allow_inspection"], force_inspection=op["force_inspection"], store_source=op["store_source"])
+        if op.get("late_options"):
+            # built with the opposite settings (and used once for a name that does not exist), then re-configured through
+            # the documented attributes: what counts is what the loader says when the load is made
+            loader = griffe.GriffeLoader(search_paths=[sp], allow_inspection=not op["allow_inspection"], force_inspection=False, store_source=op["store_source"])
+            loader.allow_inspection = op["allow_inspection"]
+            loader.force_inspection = op["force_inspection"]
+        else:
+            loader = griffe.GriffeLoader(search_paths=[sp], allow_inspection=op["allow_inspection"], force_inspection=op["force_inspection"], store_source=op["store_source"])
         top = loader.load(target, submodules=op["submodules"], find_stubs_package=op["find_stubs_package"], try_relative_path=False)
         if op["resolve_aliases"]:
             loader.resolve_aliases(implicit=op["resolve_implicit"], external=op["resolve_external"])
@@ -534,7 +543,7 @@ class _Prop:
         "forced; resolve_aliases x external x implicit; by name, by path, missing package). Static ops are checked "
         "with audit events, import seams, sentinels, sys.modules and the tree; every op is checked for sys.path "
         "identity+contents and cwd. Non-trivial = every run (each contains at least one judged op); distinct = "
-        "distinct (api/mode/outcome trace, world fault layout). Also drawn: sub-module names that collide with imported stdlib modules, chains of external packages, compiled modules in any package, `check` / `griffe check` operations over a Git repository built from the package (with and without base_ref), histories that keep sys.modules between operations."
+        "distinct (api/mode/outcome trace, world fault layout). Also drawn: sub-module names that collide with imported stdlib modules, chains of external packages, compiled modules in any package, `check` / `griffe check` operations over a Git repository built from the package (with and without base_ref), histories that keep sys.modules between operations. Round j/k: latin-1 encoded sources with a coding cookie; loaders built with the opposite inspection settings and re-configured through their public attributes before the load."
     )
     COMPONENTS = {
         "real": ["_griffe.loader", "_griffe.importer (sys_path, dynamic_import)", "_griffe.agents.inspector", "_griffe.finder", "_griffe.cli (dump, main)", "CPython import system executing the generated hostile modules"],
